@@ -31,7 +31,8 @@ def finding_key(req, obs, detail):
     # RayQuery<flags>: get_uint truncates an out-of-range literal with `as u32`
     if re.match(r"FAIL:rayquery recorded flags:\d+ for an expression whose value is L-?\d+ \(expected a rejection", d):
         return K_RAYQUERY
-    # an enum with underlying type uint is converted to int when it meets an int / bool operand (every enum ranks below bool)
+    # (repaired by fix 80dd7f9, `fixed` record: a return of the defect is reported under this key) an enum with underlying
+    # type uint was converted to int when it met an int / bool operand (every enum ranked below bool)
     if d.startswith("FAIL:[uint-backed enum converted to int]"):
         return K_ENUMUINT
     if req.startswith("C13.mix\t"):
@@ -119,7 +120,7 @@ SPEC = {
         "position_count_rejections", "case_label_value", "const_initialiser_value", "template_argument_value",
         "template_argument_not_converted", "lod_property_value", "lod_property_complete", "lod_property_rejections",
         "enum_values_c_semantics", "enum_rejected_only_out_of_range", "enum_overflow_only_at_type_max", "enum_no_panic",
-        "binop_common_type_as_specified_partial", "binop_common_type_uint_enum_not_as_specified", "binop_common_type_literal_pairs"]],
+        "binop_common_type_as_specified_partial", "binop_common_type_enum_operand_as_specified", "binop_common_type_literal_pairs"]],
     "harness": "c13",
     "nontrivial": nontrivial,
     "finding_key": finding_key,
@@ -150,9 +151,10 @@ SPEC = {
                   "parse_expr_binop converts both operands of a binary operator to (ranks, integer-only operators, short-circuit "
                   "operators, the bool-to-int remap and the operators it applies to — all re-extracted) is proved equal to HLSL's usual "
                   "arithmetic conversions for every operator and every ordered pair of operand kinds (bool, int/float literal, int, "
-                  "uint, half, float, double, int- and uint-backed enum) outside two named classes: a uint-backed enum with int/bool "
-                  "(converted to int: proved in the negative with a witness, known finding) and an untyped integer literal with "
-                  "bool/enum (proved never to yield a typed kind; observed only as notconst/reject). A source-level stream (C13.mix) "
+                  "uint, half, float, double, int- and uint-backed enum) outside one named class: an untyped integer literal with "
+                  "bool (proved never to yield a typed kind; observed only as notconst); an enum operand next to an operand of any "
+                  "other kind (untyped literals included) is proved, without exception, to take part as its underlying int / uint "
+                  "(the step of most_significant_non_vector that does this is re-extracted too). A source-level stream (C13.mix) "
                   "folds every operator on every pair of kinds with the real compiler and judges the value with a reference evaluator "
                   "that applies the usual arithmetic conversions itself instead of trusting the casts the type checker inserted.",
     "rule": "requests: C13.eval = IR expression tree (module lookups inlined) run through the real evaluate_constexpr — "
@@ -187,8 +189,10 @@ SPEC = {
         "parse_expr_as_u32, parse_statement_attribute, WriteMask, case labels, const-only folding of initialisers, kinds accepted by "
         "parse_and_evaluate_constant_expression, first/successor/overflow arms of parse_rootdefinition_enum, the type recorded with an "
         "enumerator (type of the evaluated constant), range kinds, candidate types and conversions of end_enum) — re-run on /repo's working tree every time; unknown shapes are extraction errors",
-        "tools/gens/c13.py Gen.BinopTyping (the statement after most_significant_non_vector in parse_expr_binop: which scalar is "
-        "remapped to which, and for which operators — `let x = matches!(op, ..)` conditions are understood, any other shape is an "
+        "tools/gens/c13.py Gen.BinopTyping (the whole body of most_significant_non_vector: the optional first step that replaces "
+        "a lone enum operand by enum_registry.get_underlying_type_id and leaves two enums alone, then the two rank lookups and "
+        "`left_order > right_order`; the statement after it in parse_expr_binop: which scalar is "
+        "remapped to which, and for which operators — `let x = matches!(op, ..)` conditions are understood; any other shape is an "
         "extraction error) and tools/gens/c03.py Gen.TypingTables / tools/gens/c16.py Gen.RankTable (get_non_vector_conversion_rank, "
         "require_integer, short-circuit test, `left_order > right_order`), Model/ConstBinop.lean (control flow of the common-type "
         "block, tied by the `ct:` field of C13.mix), Spec/HlslUsualConv.lean (our reading of the usual arithmetic conversions: bool "
